@@ -776,6 +776,18 @@ class Engine:
             selfty = type_head(m.group(1)); trait = re.split(r'<', m.group(2))[0].split('::')[-1]
             for key in ((selfty, trait, m.group(3)), (selfty, '*', m.group(3))):
                 if key in idx: return idx[key]
+            fm = re.fullmatch(r'From<(.+)>', m.group(2).strip())
+            if fm and m.group(3) == 'from':
+                # derive-generated `impl From<A> for B` (thiserror #[from]): the impl header is not in the source; match on the signature
+                key = ('from-sig', selfty, type_head(fm.group(1)))
+                if key not in idx:
+                    cands = []
+                    for n, t in self.mir.fn_text.items():
+                        if not n.endswith('>::from'): continue
+                        sm = re.match(r'fn .+?\(_1: (.+?)\) -> (.+?) \{\n', t, re.S)
+                        if sm and type_head(sm.group(1)) == key[2] and type_head(sm.group(2)) == selfty: cands.append(n)
+                    idx[key] = cands[0] if len(cands) == 1 else None
+                return idx[key]
             return None
         segs = [s for s in c.split('::') if s]
         if len(segs) >= 2:
